@@ -40,6 +40,17 @@ Lemma tail_no_ctx : forall done pending,
   runfunc_tail false done pending = (if pending then 2%N else 0%N).
 Proof. destruct done, pending; vm_compute; reflexivity. Qed.
 
+(* a goroutine started by a go statement ended with an error (env.failed() is
+   not nil, which sets env.done): that error is returned, before the error of
+   the context and a pending panic; if no goroutine failed nothing changes *)
+Lemma tail_goroutine_failure_first : forall has_ctx pending,
+  runfunc_tail_g true has_ctx true pending = 3%N.
+Proof. destruct has_ctx, pending; vm_compute; reflexivity. Qed.
+
+Lemma tail_no_failure : forall has_ctx done pending,
+  runfunc_tail_g false has_ctx done pending = runfunc_tail has_ctx done pending.
+Proof. reflexivity. Qed.
+
 Lemma leave_ctx pending : leave true true pending = CRet RCtxErr.
 Proof. unfold leave. rewrite tail_ctx_first. reflexivity. Qed.
 
